@@ -28,7 +28,7 @@ def make_copy():
     shutil.copytree(os.path.join(src, "src"), os.path.join(root, "src"),
                     ignore=shutil.ignore_patterns("__pycache__", "*.egg-info"))
     shutil.copytree(os.path.join(src, "nextflow"), os.path.join(root, "nextflow"),
-                    ignore=shutil.ignore_patterns("data", "__pycache__"))
+                    ignore=shutil.ignore_patterns("__pycache__"))
     for f in ("main.nf", "nextflow.config", "pyproject.toml", "setup.py"):
         if os.path.exists(os.path.join(src, f)):
             shutil.copy(os.path.join(src, f), os.path.join(root, f))
